@@ -105,6 +105,8 @@ mod util;
 #[allow(private_bounds)]
 mod voronoi;
 
+#[cfg(feature = "verif")]
+pub use voronoi::verif_hooks as verif;
 pub use voronoi::{
     convex_cell::Vertex, half_space::HalfSpace, integrals, ConvexCell, Dimensionality, Voronoi,
     VoronoiCell, VoronoiFace, VoronoiIntegrator,
